@@ -35,6 +35,7 @@ import hashlib
 import inspect
 import os
 import random
+import shutil
 import sys
 import textwrap
 
@@ -690,12 +691,28 @@ def _base(n):
   return n
 
 
+def build_case(item):
+  """(base program, renaming) of a case; built in the worker, from seeds only."""
+  idx, spec, group, style, mseed, allow_wo, allow_inner, with_extra, label = item
+  if spec[0] == 'skeleton':
+    base = prepare(progen.skeleton_program(spec[1]), with_gv=spec[2])
+  else:
+    base = prepare(progen.random_program(spec[1], size=spec[2]), with_gv=spec[3])
+  return base, make_mapping(random.Random(mseed), base, group, style, allow_wo, allow_inner, with_extra)
+
+
 def check_case(item):
-  idx, base_src, mapping, label = item
+  idx, label = item[0], item[-1]
+  base_src, mapping = build_case(item)
+  if not mapping:
+    return dict(idx=idx, skipped=True)
   name = 'vp_c11_%d_%d' % (os.getpid(), idx)
   src = rename(base_src, mapping)
   res = run_case(src, name)
-  res.update(idx=idx, label=label)
+  res.update(idx=idx, label=label, skipped=False, mapping=mapping,
+             hash=hashlib.sha1((base_src + repr(sorted(mapping.items()))).encode()).hexdigest())
+  if label.startswith('random') and 2 <= len(mapping) <= 5 and res['collided']:
+    res['sample'] = src[-500:]
   fname = mapping.get('f', 'f')
   res['roles'] = sorted(set((_base(n), r) for n, r in roles_of(build_scopes(ast.parse(src)), sorted(mapping.values()), fname)))
   if res['failure'] is not None:
@@ -704,6 +721,7 @@ def check_case(item):
     f['fails_without_renaming'] = run_case(rename(base_src, {}), name + '_b')['failure'] is not None
     f['program'] = src
     f['mapping'] = mapping
+    f['base'] = base_src
   return res
 
 
@@ -921,43 +939,42 @@ def main():
   allow_wo = a.space in ('writeonly', 'full')
   allow_inner = a.space in ('inner', 'full')
   install()
+  scratch = harness.scratch_dir()        # created before the fork: one directory for all workers, removed below
   rnd = random.Random(a.seed)
   items = []
   nskel = 0
+  flags = (allow_wo, allow_inner, a.space == 'full')
+
+  def add(spec, group, style, label):
+    items.append((len(items), spec, group, style, rnd.getrandbits(48)) + flags + (label,))
   for tree in progen.skeletons(K):
     nskel += 1
     if K >= 3 and nskel % 4 and progen.control_count(tree) == 3:
       continue                                   # thorough: every 4th program of the K=3 layer
-    base = prepare(progen.skeleton_program(tree), with_gv=nskel % 2 == 0)
     for group, style in STRATEGIES:
-      m = make_mapping(rnd, base, group, style, allow_wo, allow_inner, a.space == 'full')
-      if m:
-        items.append((len(items), base, m, 'skeleton/%s/%s' % (group, style)))
+      add(('skeleton', tree, nskel % 2 == 0), group, style, 'skeleton/%s/%s' % (group, style))
   for i in range(nrand):
-    base = prepare(progen.random_program(a.seed * 1000003 + i, size=2 + (i % 5)), with_gv=i % 3 == 0)
-    plans = [('all', ['plain', 'numbered', 'gap'][i % 3])]
+    spec = ('random', a.seed * 1000003 + i, 2 + (i % 5), i % 3 == 0)
+    add(spec, 'all', ['plain', 'numbered', 'gap'][i % 3], 'random/all/%s' % ['plain', 'numbered', 'gap'][i % 3])
     if i % 3 == 0:
-      plans.append((GROUPS[(i // 3) % len(GROUPS)], 'plain'))
-    for group, style in plans:
-      m = make_mapping(rnd, base, group, style, allow_wo, allow_inner, a.space == 'full')
-      if m:
-        items.append((len(items), base, m, 'random/%s/%s' % (group, style)))
+      g = GROUPS[(i // 3) % len(GROUPS)]
+      add(spec, g, 'plain', 'random/%s/plain' % g)
 
   runs = cases = nontrivial = generated = collided = 0
   seen, roles, raw_failures, samples = set(), set(), [], []
   for r in harness.pool_map(check_case, items, chunksize=4):
+    if r['skipped']:               # nothing to rename in that group (or everything excluded)
+      continue
     cases += 1
     runs += r['runs']
     generated += r['generated']
     collided += r['collided']
     roles.update(tuple(x) for x in r['roles'])
-    it = items[r['idx']]
-    h = hashlib.sha1((it[1] + repr(sorted(it[2].items()))).encode()).hexdigest()
-    if r['collided'] and r['events'] > 3 and h not in seen:
-      seen.add(h)
+    if r['collided'] and r['events'] > 3 and r['hash'] not in seen:
+      seen.add(r['hash'])
       nontrivial += 1
-      if len(samples) < 2 and it[3].startswith('random') and 2 <= len(it[2]) <= 5:
-        samples.append(dict(mapping=it[2], label=it[3], program=rename(it[1], it[2])[-500:]))
+      if len(samples) < 2 and 'sample' in r:
+        samples.append(dict(mapping=r['mapping'], label=r['label'], program=r['sample']))
     if r['failure']:
       raw_failures.append((r['idx'], r['failure'], r['label']))
 
@@ -968,7 +985,7 @@ def main():
     k = (f['kind'], f['sig'], label.split('/')[1])
     if pre.get(k, 0) < 3 and len(todo) < 48 and 'mapping' in f:
       pre[k] = pre.get(k, 0) + 1
-      todo.append((idx, items[idx][1], f['mapping'], f['kind']))
+      todo.append((idx, f['base'], f['mapping'], f['kind']))
   minimised = {}
   if todo:
     for idx, m, f in harness.pool_map(minimise, todo, chunksize=1):
@@ -980,7 +997,7 @@ def main():
       continue
     m, f2 = minimised[idx]
     f2 = dict(f2)
-    f2.update(fails_without_renaming=f['fails_without_renaming'], mapping=m, program=rename(items[idx][1], m), label=label)
+    f2.update(fails_without_renaming=f['fails_without_renaming'], mapping=m, program=rename(f['base'], m), label=label)
     f2['sig'] = '%s:%s' % ('+'.join(sorted(set(key_role(k) for k in m))) or 'no-renaming', f2['sig'])
     f2['names'] = sorted(m.values())
     f2['replay'] = ('write `program` to a file, import it, compare f with malt.to_graph(f) on `decisions` '
@@ -1004,6 +1021,7 @@ def main():
   if not allow_inner:
     excluded.append('inner-scope bindings (nested-def parameters, lambda parameters, comprehension variables) renamed '
                     'into the vocabulary (new finding, see new-inner-binding-* witnesses)')
+  shutil.rmtree(scratch, ignore_errors=True)
   tm = os.times()
   harness.emit(dict(
       evaluated=runs, cases=cases, cpu_seconds=round(tm[0] + tm[2], 1), skeleton_programs=nskel, random_programs=nrand, K=K,
@@ -1019,7 +1037,7 @@ def main():
             'pairs; non-trivial = distinct (program, renaming) where at least one new_symbol request collided with a '
             'user name (non-trivial branch of Namer.new_symbol) and some run produced > 3 events'
             % (K, len(STRATEGIES), nrand, len(VOCAB))),
-      samples=samples, failures=failures + wfail))
+      samples=samples, failures=failures + wfail + lfail))
 
 
 if __name__ == '__main__':
